@@ -66,6 +66,40 @@ func (w *World) ruleSizeTables(r *Report, rule string) {
 		if !ok0 || !ok1 || r0.Info()&types.IsInteger == 0 || r1.Info()&types.IsBoolean == 0 {
 			continue
 		}
+		// role: the size is used to step over octets — at some call site the int
+		// result is handed to a function answering a []byte (an octet read)
+		isSkip := false
+		for _, g := range w.SrcFuncs() {
+			for _, b := range g.Blocks {
+				for _, in := range b.Instrs {
+					c, ok := in.(*ssa.Call)
+					if !ok || c.Call.StaticCallee() != fn || c.Referrers() == nil {
+						continue
+					}
+					for _, ref := range *c.Referrers() {
+						ex, ok := ref.(*ssa.Extract)
+						if !ok || ex.Index != 0 || ex.Referrers() == nil {
+							continue
+						}
+						for _, u := range *ex.Referrers() {
+							uc, ok := u.(*ssa.Call)
+							if !ok {
+								continue
+							}
+							res := uc.Call.Signature().Results()
+							for i := 0; i < res.Len(); i++ {
+								if typeStr(res.At(i).Type()) == "[]byte" {
+									isSkip = true
+								}
+							}
+						}
+					}
+				}
+			}
+		}
+		if !isSkip {
+			continue
+		}
 		n++
 		var bad []string
 		undecided := ""
